@@ -89,7 +89,7 @@ theorem release_validated (c : Chan) (n : Nat) : (release c n).validated = none 
   repeat' split
   all_goals rfl
 
-theorem validate_good {A : Nat → Prop} {c : Chan} (h : HI A c) (n info : Nat) (sv pk : Bool) :
+theorem validate_good {A : Nat → Prop} {c : Chan} (h : HI A c) (n info : Nat) (sv : SigFact) (pk : Bool) :
     Good A (validate c n info sv pk) := by
   unfold validate
   split
@@ -97,12 +97,15 @@ theorem validate_good {A : Nat → Prop} {c : Chan} (h : HI A c) (n info : Nat) 
   · split
     · split
       · exact good_fail h _
-      · refine ⟨?_, by intro k hk; simp at hk⟩
-        split
-        · next hn =>
-          subst hn
-          exact ⟨fun m hm => Or.inl (h.1 m hm), fun _ => Or.inr rfl⟩
-        · exact ⟨fun m hm => Or.inl (h.1 m hm), fun hn => Or.inl (h.2 hn)⟩
+      · split
+        · exact good_fail h _
+        · refine ⟨?_, by intro k hk; simp at hk⟩
+          dsimp only
+          split
+          · next hn =>
+            subst hn
+            exact ⟨fun m hm => Or.inl (h.1 m hm), fun _ => Or.inr rfl⟩
+          · exact ⟨fun m hm => Or.inl (h.1 m hm), fun hn => Or.inl (h.2 hn)⟩
     · exact good_fail h _
 
 theorem revoke_good {A : Nat → Prop} {c : Chan} (h : HI A c) (n : Nat) : Good A (revoke c n) := by
